@@ -68,6 +68,7 @@ PATHS = [
     ("a", _k("x"), NUMS, Y_LIKE, Y_RE, False), ("a", _k("x"), NUMS, Y_LIKE, Y_RE, False),
     ("a", _k("y"), Y_STR, Y_LIKE, Y_RE, False), ("a", _k("y"), Y_STR, Y_LIKE, Y_RE, False),
     ("a", _k("z", 0), NUMS, Y_LIKE, Y_RE, False), ("a", _k("z", 1), NUMS, Y_LIKE, Y_RE, False), ("a", _k("z", "*"), NUMS, Y_LIKE, Y_RE, False),
+    ("a", _k("z", -1), NUMS, Y_LIKE, Y_RE, False), ("a", _k("z", "*"), NUMS, Y_LIKE, Y_RE, False),      # the grammar admits negative indices
     ("a", _k("n", "k"), K_STR, Y_LIKE, Y_RE, False), ("a", _k("n", "k-2"), NUMS, Y_LIKE, Y_RE, False),
     ("a", _k("t"), TS, Y_LIKE, Y_RE, False), ("a", _k("h"), HEX + BIN[:2], Y_LIKE, Y_RE, False), ("a", _k("bn"), BIN + HEX[:2], Y_LIKE, Y_RE, False),
     ("a", _k("f"), BOOLS + INTS[:1], Y_LIKE, Y_RE, False),
@@ -574,6 +575,27 @@ def mut_star_key(ast, pick, fresh):
     return _apply(ast, pred, fn, pick)
 
 
+def mut_index_value(ast, pick, fresh):
+    """One index step replaced by another index: [0] / [1] / [*] / [-1] / [-2] (the grammar admits negative indices; in the universe
+    they address nothing) -- different paths."""
+    def pred(n):
+        return n["k"] == "cmp" and any(s_["s"] == "idx" for s_ in n["path"]["steps"])
+
+    def fn(n):
+        steps = []
+        done = False
+        for s_ in n["path"]["steps"]:
+            if s_["s"] == "idx" and not done:
+                others = [i for i in (0, 1, "*", -1, -1, -2) if i != s_["i"]]
+                steps.append({"s": "idx", "i": others[pick(len(others))]})
+                done = True
+            else:
+                steps.append(s_)
+        n["path"] = {"t": n["path"]["t"], "steps": steps}
+        return n
+    return _apply(ast, pred, fn, pick)
+
+
 def mut_qualifier(ast, pick, fresh):
     def fn(n):
         q = dict(n["q"])
@@ -636,9 +658,9 @@ MUTATIONS = {
     "constant": mut_constant, "operator": mut_operator, "not": mut_not, "path": mut_path, "qualifier": mut_qualifier,
     "swap-followedby": mut_swap_followedby, "duplicate-and-operand": mut_duplicate_and_operand, "and-or": mut_and_or,
     "absorb-wrong": mut_absorb_wrong, "qualify": mut_qualify, "special-respell": mut_special_respell, "set-item": mut_set_item,
-    "path-length": mut_path_length, "star-key": mut_star_key,
+    "path-length": mut_path_length, "star-key": mut_star_key, "index-value": mut_index_value,
 }
-MUTATION_NAMES = ["star-key", "star-key", "path-length", "path-length", "constant", "constant", "operator", "not", "not", "not", "path", "qualifier", "qualifier", "swap-followedby", "swap-followedby",
+MUTATION_NAMES = ["index-value", "index-value", "index-value", "index-value", "star-key", "star-key", "path-length", "path-length", "constant", "constant", "operator", "not", "not", "not", "path", "qualifier", "qualifier", "swap-followedby", "swap-followedby",
                   "duplicate-and-operand", "and-or", "absorb-wrong", "qualify", "special-respell", "special-respell", "special-respell", "set-item", "set-item", "set-item", "set-item"]
 
 
